@@ -148,10 +148,9 @@ pub mod mio {
     /// a batch of readiness events
     #[verifier::external_body]
     pub struct Events { _p: u8 }
-    #[verifier::external_body]
-    pub struct EventsIter<'a> { _p: core::marker::PhantomData<&'a Events> }
-    /// a readiness event the poll instance can deliver at all: its token is one a source was registered with (environment)
-    pub uninterp spec fn wakeup_possible(e: Event) -> bool;
+    /// a readiness event the poll instance can deliver while the loop runs the phase whose state machine has type Phase
+    /// (environment; which sources can fire differs between the handshake and the connection phase)
+    pub uninterp spec fn wakeup_possible<Phase>(e: Event) -> bool;
     impl Events {
         /// number of events of the last poll
         pub uninterp spec fn count(&self) -> nat;
@@ -159,16 +158,19 @@ pub mod mio {
         pub fn with_capacity(n: usize) -> (r: Events) { unimplemented!() }
         #[verifier::external_body]
         pub fn is_empty(&self) -> (r: bool) ensures r == (self.count() == 0) { unimplemented!() }
-        #[verifier::external_body]
-        pub fn iter(&self) -> (r: EventsIter<'_>) ensures r.remaining() == self.count() { unimplemented!() }
     }
-    impl<'a> EventsIter<'a> {
+    /// R7 iterator mirror of `events.iter()`, tagged with the phase (type of the state machine) the loop is running
+    #[verifier::external_body]
+    #[verifier::reject_recursive_types(Phase)]
+    pub struct EventsIter<'a, Phase> { _p: core::marker::PhantomData<&'a Events>, _q: core::marker::PhantomData<Phase> }
+    #[verifier::external_body]
+    pub fn events_iter<'a, Phase>(events: &'a Events) -> (r: EventsIter<'a, Phase>) ensures r.remaining() == events.count() { unimplemented!() }
+    impl<'a, Phase> EventsIter<'a, Phase> {
         pub uninterp spec fn remaining(&self) -> nat;
-        /// every event carries a token some source was registered with (R7 iterator mirror)
         #[verifier::external_body]
         pub fn next(&mut self) -> (r: Option<Event>)
             ensures r is Some <==> old(self).remaining() > 0,
-                r is Some ==> final(self).remaining() == old(self).remaining() - 1 && wakeup_possible(r->0),
+                r is Some ==> final(self).remaining() == old(self).remaining() - 1 && wakeup_possible::<Phase>(r->0),
                 r is None ==> final(self).remaining() == 0,
         { unimplemented!() }
     }
